@@ -39,6 +39,15 @@ def main():
             open(p, "w").write(s.replace(old, new))
         env = dict(os.environ, VERIF_REPO=repo, VERIF_EVIDENCE_DIR=os.path.join(d, "evidence"))
         here = os.path.dirname(os.path.dirname(os.path.abspath(__file__)))
+        if os.environ.get("VERIF_SNAPSHOT"):
+            # run the check from a snapshot of the committed harness (so that edits in progress in the working tree cannot disturb a long matrix run)
+            snap = os.path.join(d, "verif")
+            os.makedirs(snap)
+            subprocess.check_call("git -C %s archive HEAD | tar -x -C %s" % (here, snap), shell=True)
+            for sub in (".deps", "build"):
+                if os.path.exists(os.path.join(here, sub)):
+                    os.symlink(os.path.join(here, sub), os.path.join(snap, sub))
+            here = snap
         r = subprocess.run([os.path.join(here, "check"), prop, "--tier", tier] + extra, env=env, capture_output=True, text=True)
         out = [l for l in (r.stdout + r.stderr).splitlines() if not l.startswith("Warning: Memory limit")]
         print("\n".join(out[-25:]))
